@@ -25,7 +25,10 @@ from menpo.transform import WithDims
 KINDS = ["PiecewiseAffine", "PythonPWA", "ThinPlateSplines", "R2LogR2RBF", "R2LogRRBF",
          "Affine", "Similarity", "Rotation", "Translation", "UniformScale",
          "NonUniformScale", "Homogeneous", "ChainPWAFirst", "ChainPWALast", "WithDims",
-         "AlignmentSimilarity"]
+         "AlignmentSimilarity", "AlignmentTranslation", "AlignmentUniformScale", "AlignmentRotation", "AlignmentAffine"]
+RETARGETABLE = ("PiecewiseAffine", "PythonPWA", "ThinPlateSplines", "AlignmentSimilarity", "AlignmentTranslation",
+                "AlignmentUniformScale", "AlignmentRotation", "AlignmentAffine")
+UPDATABLE = ("Affine", "Similarity", "Translation", "UniformScale", "NonUniformScale", "Homogeneous")
 PWA_OWNERS = ("PiecewiseAffine", "PythonPWA")
 POOL_T, POOL_B = 4, 5
 
@@ -63,7 +66,8 @@ class ApplyHistory(Machine):
                        "memo_same_array_after_refill", "same_shape_different_values",
                        "batch_middle_fails", "batch_gt_n", "batch_not_dividing", "exception_then_success",
                        "mask_checked", "apply_shape", "constrain_batched", "set_target_between_applies",
-                       "out_of_domain_mix", "apply_on_copy", "integer_dtype_buffer", "non_contiguous_view_input", "pseudoinverse_of_used_transform")
+                       "out_of_domain_mix", "apply_on_copy", "integer_dtype_buffer", "non_contiguous_view_input", "pseudoinverse_of_used_transform",
+                       "parameters_updated_in_place_between_applies")
 
     @classmethod
     def swarm(cls, rng, tier):
@@ -92,7 +96,9 @@ class ApplyHistory(Machine):
             return {"op": "refill", "b": rng.randrange(64), "seed": rng.getrandbits(32), "mix": rng.choice([0, 0, 1, 2])}
         if r < 0.90:
             return {"op": "set_target", "t": rng.randrange(64), "seed": rng.getrandbits(32)}
-        if r < 0.93:
+        if r < 0.915:
+            return {"op": "update", "t": rng.randrange(64), "seed": rng.getrandbits(32)}
+        if r < 0.935:
             return {"op": "copy", "t": rng.randrange(64), "dst": rng.randrange(64)}
         if r < 0.96:
             return {"op": "pinv", "t": rng.randrange(64), "dst": rng.randrange(64)}
@@ -137,8 +143,8 @@ class ApplyHistory(Machine):
                                    PiecewiseAffine(S, PointCloud(self._target(tseed)))])
         if kind == "WithDims":
             return WithDims([1, 0] if seed & 1 else [0])
-        if kind == "AlignmentSimilarity":
-            return AlignmentSimilarity(S, PointCloud(self._target(tseed)))
+        if kind.startswith("Alignment"):
+            return gen.make_alignment(kind, S, PointCloud(self._target(tseed)), {})
         return gen.homog_transform(kind, seed, 2)
 
     def _inside(self, g, n):
@@ -273,12 +279,32 @@ class ApplyHistory(Machine):
         if not self.ts:
             return
         e = self.ts[op["t"] % len(self.ts)]
-        if e["kind"] not in ("PiecewiseAffine", "PythonPWA", "ThinPlateSplines", "AlignmentSimilarity") or len(e["recipe"]) == 4:
+        if e["kind"] not in RETARGETABLE or len(e["recipe"]) == 4 or e.get("vec") is not None:
             return
         kind, seed, _ = e["recipe"]
         e["recipe"] = (kind, seed, op["seed"])
         e["t"].set_target(PointCloud(self._target(op["seed"])))
         e["retargeted"] = True
+
+    def _op_update(self, op):
+        """In-place parameter update (from_vector_inplace) of a long-lived, already applied transform."""
+        if not self.ts:
+            return
+        e = self.ts[op["t"] % len(self.ts)]
+        if e["kind"] not in UPDATABLE or len(e["recipe"]) == 4:
+            return
+        g = rs(op["seed"])
+        try:
+            v = np.array(e["t"].as_vector(), dtype=float)
+            v = v * (1.0 + 0.2 * g.rand(*v.shape)) + 0.05 * g.rand(*v.shape)
+            import warnings as _w
+            with _w.catch_warnings():
+                _w.simplefilter("ignore")
+                e["t"].from_vector_inplace(v)
+        except Exception:
+            return
+        e["vec"] = v.tolist()
+        self.ctx.probe("parameters_updated_in_place_between_applies")
 
     def _op_pinv(self, op):
         """The pseudoinverse of a long-lived (already applied) transform joins the pool; it must behave like the
@@ -286,7 +312,7 @@ class ApplyHistory(Machine):
         if not self.ts:
             return
         e = self.ts[op["t"] % len(self.ts)]
-        if len(e["recipe"]) == 4 or not hasattr(e["t"], "pseudoinverse") or e["kind"].startswith("Chain") or e["kind"] in ("WithDims", "R2LogR2RBF", "R2LogRRBF"):
+        if len(e["recipe"]) == 4 or e.get("vec") is not None or not hasattr(e["t"], "pseudoinverse") or e["kind"].startswith("Chain") or e["kind"] in ("WithDims", "R2LogR2RBF", "R2LogRRBF"):
             return
         try:
             inv = e["t"].pseudoinverse()
@@ -351,6 +377,8 @@ class ApplyHistory(Machine):
         snapshot = arg.copy()
         # oracle: fresh transform, copy of the values, no batching
         fresh = self._build(e["recipe"])
+        if e.get("vec") is not None:
+            fresh = fresh.from_vector(np.array(e["vec"]))
         exp, exp_exc = None, None
         try:
             exp = np.asarray(fresh.apply(snapshot.copy()))
